@@ -22,7 +22,7 @@ func init() {
 			"Producers: every fork signature (Sign, SignASN1, PrivateKey.Sign, BlindKeySign) verifies under crypto/ecdsa and every crypto/ecdsa signature verifies here. " +
 			"Fault enumeration: GenerateKey and every signing entry point under a scripted entropy reader that delivers f bytes in a given chunking (all at once, byte by byte, seeded splits, interleaved zero-length reads) and then fails permanently, f = 0..need+1 exhaustively (need measured on a never-failing reader): a nil error implies the reader never failed and at least the needed bytes were consumed; a failed reader implies a non-nil error and nil key / r,s / signature. " +
 			"distinct_nontrivial = distinct (curve, case class, r class, s class | DER class | entry point, fault position, chunking) keys",
-		Floors:      []string{"verify_agree_accept", "verify_agree_reject", "asn1_agree_accept", "asn1_agree_reject", "fork_signature_verifies_under_std", "std_signature_verifies_under_fork", "fault_error_returned", "fault_success_full_entropy", "s_plus_N_class", "asn1_bitflips", "wrapped_r_signatures"},
+		Floors:      []string{"verify_agree_accept", "verify_agree_reject", "asn1_agree_accept", "asn1_agree_reject", "fork_signature_verifies_under_std", "std_signature_verifies_under_fork", "fault_error_returned", "fault_success_full_entropy", "s_plus_N_class", "asn1_bitflips", "wrapped_r_signatures", "history_verify_agrees"},
 		Assumptions: []string{"crypto/ecdsa of the Go toolchain that builds the harness is the reference", "entropy failures are permanent and a failing Read delivers no bytes"},
 		Run:         runC13,
 	})
@@ -412,6 +412,12 @@ func runC13(c *core.Ctx) {
 				}
 			}
 		}
+		// ---------------- consecutive related calls on caller-owned objects updated in place
+		for h := 0; h < c.Pick(6, 300); h++ {
+			if c.Next() {
+				c13History(c, curve, c.CaseRng(), fmt.Sprint(h))
+			}
+		}
 		// ---------------- constructed signatures whose R has N <= R.x < P (so r = R.x - N "wraps" mod N)
 		if c.Next() {
 			c13Wrap(c, curve, c.CaseRng())
@@ -575,4 +581,88 @@ func c13Faults(c *core.Ctx, curve elliptic.Curve) {
 		c.Exhaustive(fmt.Sprintf("%s %s: every fault position 0..%d x 4 chunkings", name, e.name, need+1))
 	}
 	c.Sample(name+" fault enumeration", map[string]any{"entries": []string{"GenerateKey", "Sign", "SignASN1", "PrivateKey.Sign", "BlindKeySign"}, "chunkings": 4})
+}
+
+// c13History: consecutive Verify / VerifyASN1 calls over related inputs - two keys on one curve and their negations
+// (same x, other y), valid signatures under each, (r, N-s), the digest with one bit changed, exact repeats - where the
+// caller keeps ONE public-key object whose coordinates it updates in place, ONE pair of big integers for (r, s), one
+// digest buffer and one signature buffer. Every verdict is compared with crypto/ecdsa on private copies.
+func c13History(c *core.Ctx, curve elliptic.Curve, r *core.Rand, tag string) {
+	name := curve.Params().Name
+	N, P := curve.Params().N, curve.Params().P
+	type item struct {
+		name   string
+		x, y   *big.Int
+		digest []byte
+		r, s   *big.Int
+	}
+	var pool []item
+	digest := r.Bytes(32)
+	for ki := 0; ki < 2; ki++ {
+		k := c13MkKey(r, curve)
+		vr, vs, err := stdecdsa.Sign(r, k.std, digest)
+		must(err)
+		negY := new(big.Int).Sub(P, k.std.Y)
+		// a signature valid under the negated key: secret N-d
+		nk := stdPriv(curve, new(big.Int).Sub(N, k.std.D))
+		nr, ns, err := stdecdsa.Sign(r, nk, digest)
+		must(err)
+		t := fmt.Sprintf("key%d", ki)
+		pool = append(pool,
+			item{t + ":valid", k.std.X, k.std.Y, digest, vr, vs},
+			item{t + ":negated-key,valid-under-it", k.std.X, negY, digest, nr, ns},
+			item{t + ":negated-key,signature-of-the-original", k.std.X, negY, digest, vr, vs},
+			item{t + ":original-key,signature-of-the-negated", k.std.X, k.std.Y, digest, nr, ns},
+			item{t + ":s-negated", k.std.X, k.std.Y, digest, vr, new(big.Int).Sub(N, vs)},
+			item{t + ":digest-bit-flipped", k.std.X, k.std.Y, flipBit(digest, 3), vr, vs},
+			item{t + ":r-plus-one", k.std.X, k.std.Y, digest, new(big.Int).Add(vr, big.NewInt(1)), vs},
+		)
+	}
+	pub := &ecdsa.PublicKey{Curve: curve, X: new(big.Int), Y: new(big.Int)}
+	rr, ss := new(big.Int), new(big.Int)
+	dbuf := make([]byte, 0, 64)
+	sbuf := make([]byte, 0, 160)
+	var trace []string
+	prelude := []int{0, 1, 0, 2, 3, 0, 7, 0, 8, 7}
+	for step := 0; step < len(prelude)+12; step++ {
+		var it item
+		if step < len(prelude) && len(tag)%2 == 0 {
+			it = pool[prelude[step]]
+		} else {
+			it = pool[r.IntN(len(pool))]
+		}
+		asn1 := step%3 == 2
+		trace = append(trace, fmt.Sprintf("%s/asn1=%v", it.name, asn1))
+		pub.X.Set(it.x)
+		pub.Y.Set(it.y)
+		rr.Set(it.r)
+		ss.Set(it.s)
+		dbuf = append(dbuf[:0], it.digest...)
+		want := stdecdsa.Verify(&stdecdsa.PublicKey{Curve: curve, X: new(big.Int).Set(it.x), Y: new(big.Int).Set(it.y)}, clone(it.digest), new(big.Int).Set(it.r), new(big.Int).Set(it.s))
+		c.Eval(1)
+		var got bool
+		pan, pv, _ := core.Guard(func() {
+			if asn1 {
+				sbuf = append(sbuf[:0], derSig(it.r, it.s)...)
+				got = ecdsa.VerifyASN1(pub, dbuf, sbuf)
+			} else {
+				got = ecdsa.Verify(pub, dbuf, rr, ss)
+			}
+		})
+		d := map[string]any{"curve": name, "calls_in_order": clone2(trace), "pub_x": it.x.Text(16), "pub_y": it.y.Text(16), "digest": core.Hex(it.digest), "r": it.r.Text(16), "s": it.s.Text(16), "tag": tag}
+		if pan {
+			c.Violation(name+":Verify:history:panic", "Verify panicked: "+pv, d)
+			return
+		}
+		if got != want {
+			c.Violation(name+":Verify:history:disagrees", fmt.Sprintf("after the calls before it (same key object updated in place, same (r, s) integers, same buffers) Verify returns %v where crypto/ecdsa returns %v", got, want), d)
+			return
+		}
+		if rr.Cmp(it.r) != 0 || ss.Cmp(it.s) != 0 || pub.X.Cmp(it.x) != 0 || pub.Y.Cmp(it.y) != 0 || !bytesEq(dbuf, it.digest) {
+			c.Violation(name+":Verify:history:argument-written", "Verify modified one of its arguments", d)
+			return
+		}
+		c.Class("history_verify_agrees")
+	}
+	c.Distinctf("%s:history:%s", name, tag)
 }
